@@ -85,6 +85,7 @@ pub struct Stats {
     pub val_classes: BTreeMap<String, u64>,
     pub commit_trace: Vec<(u64, u64)>,
     pub error_calls_verified: u64,
+    pub freelist_fill: BTreeMap<String, u64>,
 }
 
 impl Stats {
@@ -115,6 +116,9 @@ impl Stats {
         self.rollback_checks += o.rollback_checks;
         self.max_depth = self.max_depth.max(o.max_depth);
         self.error_calls_verified += o.error_calls_verified;
+        for (k, v) in &o.freelist_fill {
+            *self.freelist_fill.entry(k.clone()).or_insert(0) += v;
+        }
         for (k, v) in &o.how_used {
             *self.how_used.entry(k.clone()).or_insert(0) += v;
         }
@@ -246,7 +250,7 @@ macro_rules! with_tb {
     ($how:expr, $bytes:expr, |$k:ident| $body:expr) => {{
         let __b: &[u8] = $bytes;
         match $how {
-            How::Slice => {
+            How::Slice | How::Listed => {
                 let $k: &[u8] = __b;
                 $body
             }
@@ -933,7 +937,12 @@ fn exec_tx_inner(run: &mut Run, db: &DB, path: &Path, script: &TxScript, committ
                     }
                     Op::TxGet { how, .. } => {
                         let want = work.get_bucket(key);
-                        let real = with_tb!(*how, key, |k| tx.get_bucket(k));
+                        let real = if *how == How::Listed {
+                            *run.out.stats.how_used.entry("Listed".into()).or_insert(0) += 1;
+                            tx.buckets().find(|(n, _)| n.name() == key).map(|(_, b)| b).ok_or(jammdb::Error::BucketMissing)
+                        } else {
+                            with_tb!(*how, key, |k| tx.get_bucket(k))
+                        };
                         if run.cmp_unit(op, &real, &want) {
                             if let Ok(b) = real {
                                 handles.push(Some(b));
@@ -1096,6 +1105,16 @@ fn exec_tx_inner(run: &mut Run, db: &DB, path: &Path, script: &TxScript, committ
                         let b = handles[hidx.unwrap()].as_ref().unwrap();
                         let real = match op {
                             Op::Create { .. } => with_tb!(*how, key, |k| b.create_bucket(k)),
+                            Op::GetB { .. } if *how == How::Listed => {
+                                *run.out.stats.how_used.entry("Listed".into()).or_insert(0) += 1;
+                                // alternate between the two listing routes
+                                if key.len() % 2 == 0 {
+                                    b.buckets().find(|(n, _)| n.name() == key).map(|(_, nb)| nb).ok_or(jammdb::Error::BucketMissing)
+                                } else {
+                                    use jammdb::ToBuckets;
+                                    b.cursor().to_buckets().find(|(n, _)| n.name() == key).map(|(_, nb)| nb).ok_or(jammdb::Error::BucketMissing)
+                                }
+                            }
                             Op::GetB { .. } => with_tb!(*how, key, |k| b.get_bucket(k)),
                             _ => with_tb!(*how, key, |k| b.get_or_create_bucket(k)),
                         };
@@ -1488,6 +1507,14 @@ fn file_checks(run: &mut Run, db: &DB, path: &Path, committed: &MBucket) {
     }
     if let Some(m) = &rep.meta {
         run.out.stats.pages_classified += m.num_pages.saturating_sub(2);
+    }
+    // how full the free-list page run is: (entries, capacity of the run) - "exactly full" and its neighbours are rare
+    {
+        let cap = (rep.freelist_run.len() as u64 * run.ps).saturating_sub(40) / 8;
+        let n = rep.free_entries.len() as u64;
+        if cap > 0 && n + 3 >= cap && n <= cap {
+            *run.out.stats.freelist_fill.entry(format!("{} of {} (run of {} page(s), page size {})", n, cap, rep.freelist_run.len(), run.ps)).or_insert(0) += 1;
+        }
     }
     for e in &rep.errors {
         run.viol(Class::Fileck, format!("fileck:{}", fileck_sig(e)), e.clone());
